@@ -5,8 +5,8 @@ import (
 	"testing"
 
 	"github.com/Oneledger/protocol/action"
-	"github.com/Oneledger/protocol/data/governance"
 	"github.com/Oneledger/protocol/data/balance"
+	"github.com/Oneledger/protocol/data/governance"
 
 	"verif/harness"
 )
@@ -21,7 +21,9 @@ type hostileCase struct {
 }
 
 func xxx(n int64) action.Amount { return harness.Coin("XXX", harness.OLTUnits(n)) }
-func neg(n int64) action.Amount { return harness.Coin("OLT", harness.Amt(fmt.Sprintf("-%d000000000000000000", n))) }
+func neg(n int64) action.Amount {
+	return harness.Coin("OLT", harness.Amt(fmt.Sprintf("-%d000000000000000000", n)))
+}
 func huge() action.Amount {
 	return harness.Coin("OLT", harness.Amt("1000000000000000000000000000000000000000000000000000000000000"))
 }
@@ -208,7 +210,22 @@ func hostileCases() []hostileCase {
 		return ProposalWithdrawFunds(hid, U(w, 1), olt(50), U(w, 1).Addr, "hostile")
 	})
 
+	// a stranger expired the proposal while it was still being funded (see the EXPIRE_VOTES scenarios);
+	// after the funding deadline the funders try to get their money back
+	add("ProposalWithdrawFunds", "after-stranger-expired-it-during-funding", func(w *harness.World) []harness.BlockSpec {
+		p := gFund(w)
+		p = append(p, blk(ExpireVotes(hid, U(w, 2), "user-expire")))
+		return append(p, empty(3)...)
+	}, func(w *harness.World) *harness.TxSpec {
+		return ProposalWithdrawFunds(hid, U(w, 1), olt(50), U(w, 1).Addr, "hostile")
+	})
+
 	// ---- ExpireVotes (public router) ----
+	add("ExpireVotes", "penniless-stranger-zero-fee", gVote, func(w *harness.World) *harness.TxSpec {
+		t := ExpireVotes(hid, harness.NewAccount("penniless"), "hostile")
+		t.Fee = action.Fee{}
+		return t
+	})
 	add("ExpireVotes", "third-party-validator-address", gVote, func(w *harness.World) *harness.TxSpec {
 		return ExpireVotes(hid, w.Vals[0].Val, "hostile", U(w, 2))
 	})
@@ -415,7 +432,6 @@ type createArgs struct {
 	cfg      string
 	signers  []*harness.Account
 }
-
 
 func short(s string) string {
 	if len(s) > 160 {
